@@ -947,6 +947,11 @@ def search_float(res, tier, boost, rng):
         for rep in range(4 if tier == 'quick' and not boost else 60):
             ang = rng.uniform(0, 2 * math.pi) if rep % 2 else rng.choice([0.0, math.pi / 2, math.pi, -math.pi / 2])
             phi = rng.choice([math.pi / 2, -math.pi / 2]) if rep % 3 != 2 else rng.uniform(-2.0, 2.0)
+            # a closed polygon whose parametrisation starts in the middle of a side: the last and the first piece
+            # continue each other on one straight line while their parameters wrap around ([L-h1, L] and [0, h2])
+            collinear = rep % 4 == 3
+            if collinear:
+                phi = 0.0
             d1 = (math.cos(ang), math.sin(ang))
             d2 = (math.cos(ang + phi), math.sin(ang + phi))
             if rep % 2 == 0 and abs(abs(phi) - math.pi / 2) < 1e-12:  # exactly axis-parallel pieces
@@ -958,6 +963,9 @@ def search_float(res, tier, boost, rng):
             a1 = rng.uniform(-1, 1)
             b1 = a1 + h1
             a2 = b1 if rng.random() < 0.5 else rng.uniform(-1, 1)
+            if collinear:
+                a1, a2 = rng.choice([3.0, 4.0, 6.5]) - h1, 0.0
+                b1 = a1 + h1
             b2 = a2 + h2
             g1 = SegGamma(P[0], P[1], d1[0], d1[1], b1)
             g2 = SegGamma(P[0], P[1], d2[0], d2[1], a2)
